@@ -83,8 +83,48 @@ def _hashable(x):
         return False
 
 
+class Obj:
+    """Custom class for object graphs handled only by pydiff.build_tree."""
+    def __init__(self, **kw):
+        self.__dict__.update(kw)
+
+
+def custom_cyclic_graphs():
+    """Cycles that pass through instances of a custom class (pydiff.build_tree only)."""
+    out = []
+    o = Obj(v=1)
+    o.me = o
+    out.append(('custom object with an attribute referring to itself', o))
+    p, c = Obj(name='p'), Obj(name='c')
+    p.child, c.parent = c, p
+    out.append(('custom parent/child objects referring to each other', p))
+    o = Obj(v=2)
+    o.items = [1, o]
+    out.append(('custom object -> list -> same object', o))
+    o = Obj(v=3)
+    o.d = {'k': o}
+    out.append(('custom object -> dict -> same object', o))
+    lst = [0]
+    lst.append(Obj(owner=lst))
+    out.append(('list -> custom object -> same list', lst))
+    d = {'s': 'x'}
+    d['o'] = Obj(inner=Obj(top=d))
+    out.append(('dict -> custom object -> custom object -> same dict', d))
+    a, b, c = Obj(n=1), Obj(n=2), Obj(n=3)
+    a.next, b.next, c.next = b, c, a
+    out.append(('ring of three custom objects', a))
+    o = Obj(v=4)
+    o.t = (1, (2, o))
+    out.append(('custom object -> nested tuples -> same object', o))
+    return out
+
+
 def cyclic_graphs():
-    """Every placement of one or two back edges in small list/dict skeletons."""
+    """Every placement of one or two back edges in small list/dict skeletons, then the custom-object cycles."""
+    return _builtin_cyclic_graphs() + [(d + ' [custom]', o) for d, o in custom_cyclic_graphs()]
+
+
+def _builtin_cyclic_graphs():
     out = []
     for depth in (1, 2, 3):
         for kind in itertools.product(['list', 'dict'], repeat=depth):
@@ -170,6 +210,8 @@ def _cyclic_job(job):
     desc, obj = cyclic_graphs()[idx]
     fails = []
     for name, fn in _entry_points(opt).items():
+        if desc.endswith('[custom]') and name != 'pydiff.build_tree':
+            continue        # only pydiff.build_tree documents support for instances of arbitrary classes
         try:
             t = with_timeout(fn, obj, STEP_TIMEOUT)
             if opt.get('ignore_cycles'):
@@ -229,7 +271,7 @@ def bounded(tier, seed, repo_root):
     return [{
         'name': 'C18.object-graphs', 'bound': f"{len(objs)} acyclic structures (<= 5 containers over list/tuple/dict/frozenset with shared "
         f"sub-objects) x build options; {ncyc} cyclic structures (chains of depth 1-3, every placement of one back edge and a second "
-        f"back edge to the root) x {{check, ignore}} x dict strategy; {STEP_TIMEOUT}s step budget",
+        f"back edge to the root, plus {len(custom_cyclic_graphs())} cycles through instances of a custom class for pydiff.build_tree) x {{check, ignore}} x dict strategy; {STEP_TIMEOUT}s step budget",
         'evaluations': len(jobs) * 3 + len(cj) * 3, 'distinct_nontrivial': len({repr(o) for o in objs}) + ncyc, 'exhaustive': False,
         'rule': 'object graph -> every builder entry point: to_obj() equals the original (tuples as lists, sets as multisets), entry '
                 'points agree, copy() == tree, shared sub-objects accepted, cyclic inputs end in ValueError or a placeholder',
